@@ -529,14 +529,11 @@ func c05MixedIndent(c *Ctx, lx *lexerModel) {
 	r := evtRule{
 		start: "",
 		edge: func(e edgeInfo) []string {
-			if e.Tag == nil || !e.Branch {
+			val, ok := edgeEqConst(info, e)
+			if !ok {
 				return nil
 			}
-			tv, ok := info.Types[e.Cond]
-			if !ok || tv.Value == nil {
-				return nil
-			}
-			switch tv.Value.ExactString() {
+			switch val {
 			case "32":
 				sawArms["space"] = true
 				return []string{"SPACE"}
@@ -575,7 +572,7 @@ func c05MixedIndent(c *Ctx, lx *lexerModel) {
 	// a panic ends the path (noReturn), so any return reached with S and T means the panic was skipped
 	fs := runEVT(w, f, r)
 	if !sawArms["space"] || !sawArms["tab"] {
-		c.undecided("C05.R2", "the width-measuring function has no switch arms for ' ' and '\\t'")
+		c.undecided("C05.R2", "the width-measuring function has no branch taken for ' ' and none for '\\t'")
 		return
 	}
 	if len(fs) == 0 {
